@@ -74,7 +74,10 @@ def h_is_realizable(ctx):
     before = snapshot(aut)
     f = ctx.fn(gr1.is_realizable)
     with contextlib.redirect_stdout(io.StringIO()):
-        r = ctx.call(f, win, aut, label='is_realizable')
+        if ctx.p.get('keyword', not ctx.p.get('moore')):
+            r = ctx.call(f, win=win, aut=aut, label='is_realizable')
+        else:
+            r = ctx.call(f, win, aut, label='is_realizable')
     tr = _as_term(r)
     verdict, _ = verdict_spec(w, qinit, ctx.p['plus_one'], tW, tE, tS)
     w.oblige(f'is_realizable.post: verdict <=> the {qinit} initial formula is valid',
